@@ -17,6 +17,13 @@ def decode_scalar_array(tp, data, pos, endianness, count):
     return values, cursor
 
 
+def _checked_list(tp, values):
+    """ Validates all values up front (also when given as an iterator), so a rejected operation changes nothing. """
+    if not hasattr(values, '__iter__'):
+        len(values)  # not a collection: TypeError, as before
+    return [tp._check(value) for value in values]
+
+
 def scalar_array_eq(self, other):
     if self is other:
         return True
@@ -53,9 +60,10 @@ class fixed_scalar_array(base_array):
             self._values[idx] = value
 
     def __setslice__(self, start, stop, values):
+        values = _checked_list(self._TYPE, values)
         if len(self._values[start:stop]) != len(values):
             raise ProphyError("setting slice with different length collection")
-        self._values[start:stop] = map(self._TYPE._check, values)
+        self._values[start:stop] = values
 
     def __eq__(self, other):
         return scalar_array_eq(self, other)
@@ -87,11 +95,10 @@ class bound_scalar_array(base_array):
         self._values.insert(idx, value)
 
     def extend(self, values):
-        if not values:
-            return
+        values = _checked_list(self._TYPE, values)
         if self._max_len and len(self) + len(values) > self._max_len:
             raise ProphyError("exceeded array limit")
-        self._values.extend(map(self._TYPE._check, values))
+        self._values.extend(values)
 
     def remove(self, elem):
         self._values.remove(elem)
@@ -106,9 +113,10 @@ class bound_scalar_array(base_array):
             self._values[idx] = value
 
     def __setslice__(self, start, stop, values):
+        values = _checked_list(self._TYPE, values)
         if self._max_len and len(self) + len(values) - len(self._values[start:stop]) > self._max_len:
             raise ProphyError("exceeded array limit")
-        self._values[start:stop] = map(self._TYPE._check, values)
+        self._values[start:stop] = values
 
     def __delitem__(self, idx):
         del self._values[idx]
@@ -160,24 +168,26 @@ class bound_composite_array(base_array):
             raise ProphyError("exceeded array limit")
 
         new_element = self._TYPE()
-        self._values.append(new_element)
         for name, value in attributes.items():
             attr = getattr(new_element, name)
             if isinstance(attr, base_array):
                 attr[:] = value
             else:
                 setattr(new_element, name, value)
+        self._values.append(new_element)
         return new_element
 
     def extend(self, elem_seq):
-        if self._max_len and len(self) + len(elem_seq) > self._max_len:
-            raise ProphyError("exceeded array limit")
-
         composite_cls = self._TYPE
+        new_elements = []
         for message in elem_seq:
             new_element = composite_cls()
             new_element.copy_from(message)
-            self._values.append(new_element)
+            new_elements.append(new_element)
+
+        if self._max_len and len(self) + len(new_elements) > self._max_len:
+            raise ProphyError("exceeded array limit")
+        self._values.extend(new_elements)
 
     def __delitem__(self, idx):
         del self._values[idx]
